@@ -34,6 +34,7 @@ def floors(m, tier):
         "typed by oracle": (m.counters.get("oracle_typed", 0), 2000),
         "untyped by oracle": (m.counters.get("oracle_untyped", 0), 2000),
         "forced-type cases": (m.counters.get("forced_known", 0), 500),
+        "Sid-object histories": (m.counters.get("sid_object_histories", 0), 500),
     }
 
 
@@ -196,6 +197,20 @@ def worker(args):
         except Exception:
             x = None  # already recorded by the monitor
         typed = bool(x) if x is not None else False
+        if typed and ":" not in s and "?" not in s and rng.random() < 0.3:
+            # history: the same string asked as a Sid OBJECT of each type that accepts it, then as a string again
+            # (Sid objects and strings are distinct arguments of the cached factory)
+            for t2 in model.all_types(s):
+                try:
+                    Sid(Sid(t2.name + ":" + s))
+                except Exception:
+                    pass
+            try:
+                Sid(s)
+                Sid(x)
+            except Exception:
+                pass
+            rec.count("sid_object_histories")
         if typed or cls.startswith("near_") or cls.startswith("uri_"):
             rec.nt(s)
         if typed:
